@@ -103,6 +103,10 @@ func ExtractMPIs(d []byte) ([]byte, []*big.Int, bool) {
 	if !ok {
 		return nil, nil, false
 	}
+	// every MPI takes at least the four bytes of its length
+	if uint64(mpiCount) > uint64(len(current)/4) {
+		return nil, nil, false
+	}
 	result := make([]*big.Int, int(mpiCount))
 	for i := 0; i < int(mpiCount); i++ {
 		current, result[i], ok = ExtractMPI(current)
